@@ -235,6 +235,138 @@ def N_norm(w, sign, trunc, v):
     return None
 
 
+# ------------------------------------------------------------------ IntegerAttr.__init__
+NORMF = z3.Function("normalized_value_result", z3.IntSort(), z3.IntSort())  # what value_type.normalized_value(v, truncate_bits=t) returns when not None
+NORM_NONE = z3.Function("normalized_value_is_None", z3.IntSort(), z3.BoolSort())
+
+
+class IntegerAttrInit(Spec):
+    """
+    IntegerAttr.__init__(value, value_type, truncate_bits): WHATEVER form the arguments take (int or IntAttr value; int width, IntegerType or
+    IndexType), the stored payload is an IntAttr holding normalized_value(v) for integer types (v itself when that is None, or for index) -
+    so equal parameters give equal attributes.  IntegerType.normalized_value is used through its discharged contract (unit NormalizedValue).
+    """
+
+    prop, file, qualname = PROP, BI, "IntegerAttr.__init__"
+
+    def __init__(self):
+        from pyvc.engine import Res
+
+        spec = self
+
+        def b_norm(ex, st, args, kw):
+            v = z_int(args[0])
+            ex.note_contract(spec._norm)
+            out = []
+            for none, bs in ex.split(st, NORM_NONE(v)):
+                out.append(Res("val", None if none else VInt(NORMF(v)), bs))
+            return out
+
+        def b_int_attr(ex, st, args, kw):
+            r = st.new_object("int_attr")
+            st.assume(IA_DATA(r) == z_int(args[0]))
+            return [Res("val", VRef(r, "IntAttr"), st)]
+
+        def b_super_init(ex, st, args, kw):
+            payload, ty = args[0], args[1]
+            v = spec._v
+            want = v if spec.inst["type"] == "IndexType" else z3.If(NORM_NONE(v), v, NORMF(v))
+            is_attr = isinstance(payload, VRef) and payload.cls == "IntAttr"
+            ex.oblige(st, "call-pre", "super().__init__:the-payload-is-an-IntAttr", z3.BoolVal(is_attr), "property")
+            if is_attr:
+                ex.oblige(st, "call-pre", "super().__init__:the-stored-value-is-the-normalised-value-whatever-the-argument-form", IA_DATA(payload.z) == want, "property")
+            ex.oblige(st, "call-pre", "super().__init__:the-type-parameter-is-a-type-object", z3.BoolVal(isinstance(ty, VRef) and ty.cls in ("IntegerType", "IndexType")), "property")
+            st.ghost["stored"] = z3.BoolVal(True)
+            return [Res("val", None, st)]
+
+        b_super_init.ghost_modifies = ["stored"]
+        self._norm = NormalizedValue()
+        self.calls = {"value_type.normalized_value": Builtin(b_norm, "contract of IntegerType.normalized_value (unit NormalizedValue): None or the canonical representative"),
+                      "IntAttr": Builtin(b_int_attr, "IntAttr(v): a Data attribute holding v"),
+                      "IntegerType": Builtin(lambda ex, st, a, k: [Res("val", VRef(st.new_object("int_type"), "IntegerType"), st)], "IntegerType(width)"),
+                      "super().__init__": Builtin(b_super_init, "ParametrizedAttribute.__init__(payload, type): stores the two parameters")}
+
+    @property
+    def globals(self):
+        spec = self
+
+        def isinst(ex, st, v, cls):
+            name = cls.text if isinstance(cls, VGlobal) else str(cls)
+            if name == "int":
+                return isinstance(v, (int, VInt)) and not isinstance(v, bool)
+            if name == "IndexType":
+                return isinstance(v, VRef) and v.cls == "IndexType"
+            return None
+
+        def getattr_(ex, st, base, attr):
+            if base.cls == "IntAttr" and attr == "data":
+                return VInt(IA_DATA(base.z))
+            return None
+
+        return {"__isinstance__": isinst, "__getattr__": getattr_, "int": VGlobal("int"), "IndexType": VGlobal("IndexType")}
+
+    def setup(self, st, inst):
+        self.inst = inst
+        v = st.declare_input("value", z3.Int("value"))
+        self._v = v
+        st.ghost["stored"] = z3.BoolVal(False)
+        if inst["value"] == "int":
+            val = VInt(v)
+        else:
+            val = VRef(z3.IntVal(7), "IntAttr")
+            st.assume(IA_DATA(z3.IntVal(7)) == v)
+        ty = {"int": 8, "IntegerType": VRef(z3.IntVal(8), "IntegerType"), "IndexType": VRef(z3.IntVal(9), "IndexType")}[inst["type"]]
+        return {"self": VRef(z3.IntVal(1), "IntegerAttr"), "value": val, "value_type": ty, "truncate_bits": inst["trunc"]}
+
+    def pre(self, st, a):
+        return []
+
+    def post(self, old, st, a, res):
+        return [C("the-parameters-are-stored", st.ghost["stored"])]
+
+    def replay(self, inst, m):
+        # normalized_value is uninterpreted in this unit, so the model's value need not be one the real function changes: boundary values are tried too
+        for v in (m.get("value", 0), 255, 128, -129, 2**31, 2**63, 2**64):
+            f = N_int_attr_forms(v)
+            if f is not None:
+                return f
+        return None
+
+
+IA_DATA = z3.Function("int_attr_data", z3.IntSort(), z3.IntSort())
+
+
+@rechecked
+def N_int_attr_forms(v):
+    """Every argument form of IntegerAttr(...) for one value gives the same attribute (payload, equality, hash)."""
+    from xdsl.dialects.builtin import IndexType, IntAttr, IntegerAttr, IntegerType, Signedness
+
+    for w in (1, 8, 32, 64):
+        for sign in (Signedness.SIGNLESS, Signedness.SIGNED, Signedness.UNSIGNED):
+            t = IntegerType(w, sign)
+            for trunc in (False, True):
+                forms = []
+                for mk in (lambda: IntegerAttr(v, t, truncate_bits=trunc), lambda: IntegerAttr(IntAttr(v), t, truncate_bits=trunc)):
+                    try:
+                        forms.append(mk())
+                    except Exception as e:  # noqa: BLE001
+                        forms.append(type(e).__name__)
+                if sign == Signedness.SIGNLESS:
+                    try:
+                        forms.append(IntegerAttr(v, w, truncate_bits=trunc))
+                    except Exception as e:  # noqa: BLE001
+                        forms.append(type(e).__name__)
+                a0 = forms[0]
+                for f in forms[1:]:
+                    same = (isinstance(a0, str) and a0 == f) or (not isinstance(a0, str) and not isinstance(f, str) and a0 == f and hash(a0) == hash(f) and a0.value.data == f.value.data)
+                    if not same:
+                        return {"value": v, "type": str(t), "truncate_bits": trunc, "forms": [str(x) for x in forms], "why": "argument forms of the same parameters give different attributes"}
+    a, b = IntegerAttr(v, IndexType()), IntegerAttr(IntAttr(v), IndexType())
+    if a != b or hash(a) != hash(b):
+        return {"value": v, "type": "index", "why": "int and IntAttr forms differ"}
+    return None
+
+
 # ------------------------------------------------------------------ OperationInfo (CSE key)
 class OpInfoEq(Spec):
     """OperationInfo.__eq__: equal keys have equal hashes (the hash comparison is a conjunct)."""
@@ -343,7 +475,14 @@ def _native_attr_values(tier, seed):
             for z in c:
                 if e and (y == z) and not (x == z):
                     return {"cases": cases, "failures": [{"key": "C08/transitive", "x": str(x), "y": str(y), "z": str(z)}], "exhaustive": True, "bound": ""}
-    return {"cases": cases, "failures": [], "exhaustive": True, "bound": f"all pairs/triples over a pool of {len(a)} builtin attribute values built three times independently"}
+    # every argument form of IntegerAttr (int / IntAttr value; width / IntegerType / IndexType) for boundary values
+    for v in (0, 1, -1, 127, 128, 255, 256, -128, -129, 2**31, 2**32 - 1, 2**63, 2**64 - 1, -2**63, 2**64):
+        cases += 1
+        f = N_int_attr_forms(v)
+        if f:
+            return {"cases": cases, "failures": [dict(f, key="C08/same-parameters")], "exhaustive": True, "bound": ""}
+    return {"cases": cases, "failures": [], "exhaustive": True, "bound": f"all pairs/triples over a pool of {len(a)} builtin attribute values built three times independently; "
+            "IntegerAttr built from every argument form (int / IntAttr; width / IntegerType of 3 signednesses / index; truncate_bits) for 15 boundary values"}
 
 
 def scan_eq_overrides():
@@ -399,13 +538,15 @@ def make_specs(tier):
     ws = [1, 2, 8, 16, 32, 64] if tier == "quick" else list(range(1, 65)) + [128]
     add(NormalizedValue(), [{"w": w, "sign": s, "trunc": t} for w in ws for s in ("SIGNLESS", "SIGNED", "UNSIGNED") for t in (False, True)])
     add(OpInfoEq(), [{}])
+    add(IntegerAttrInit(), [{"value": v, "type": t, "trunc": tr} for v in ("int", "IntAttr") for t in ("int", "IntegerType", "IndexType") for tr in (False, True)])
     return specs
 
 
 ASSUMPTIONS = [
     "dataclass(frozen=True) generates field-wise __eq__/__hash__ for ParametrizedAttribute/Data (CPython); payload types str/int/bytes/tuple/immutabledict have consistent ==/hash",
     "struct.pack('<d', x) is the IEEE-754 binary64 bit pattern of x; hash(bytes) is a function of the content; hash(float) is a function of the value, of the object identity for NaN (CPython >= 3.10)",
-    "IntegerAttr.__init__ stores normalized_value(value) (its 10-line body is not under contract; covered by the bounded stand-in)",
+    "IntegerAttr.__init__ is under contract with trusted models of IntAttr(v), IntegerType(w) and ParametrizedAttribute.__init__ (stores its two arguments); "
+    "IntegerType.normalized_value is used through its discharged contract",
     "UnregisteredAttr.with_name_and_type class cache and 'parsed from the same text in different contexts': not covered",
 ]
 
